@@ -104,6 +104,19 @@ Theorem dirs_advance_cyclically pat (k : nat) : pat <> [] ->
   fst (cycle_next pat (cycle_iter pat k 0)) = dir_at pat (Z.of_nat k).
 Proof. exact (dirs_cyclic pat k). Qed.
 
+(* 7b. ... also when the cycles are run as CALLS of m cycles each (multigrid as
+   preconditioner of a Krylov solver: every call ends through the cycle limit):
+   the events of n cycles in calls are those of n consecutive cycles.  Rests on
+   the flag [dirs_advance_before_terminate] read off solver.py (the hand-over
+   precedes the termination test); the second statement shows what goes wrong
+   otherwise. *)
+Theorem directions_advance_across_preconditioner_calls c psc plr m n :
+  outer_cycles_calls c psc plr m n = outer_cycles c psc plr n.
+Proof. exact (calls_advance_once_per_cycle c psc plr m n). Qed.
+Theorem stale_handover_at_call_end_refuted :
+  exists m k, dir_at [1; 2; 3] (dir_index_of false m k) <> dir_at [1; 2; 3] k.
+Proof. exact stale_handover_refuted. Qed.
+
 (* non-vacuity: concrete configurations meet the hypotheses *)
 Example wf_example :
   wf_cfg {| cyc := 70; sc := 1; lr := 5; user := -1; pre_on := true; post_on := true;
@@ -132,4 +145,6 @@ Print Assumptions bottom_is_header_coarsest_grid.
 Print Assumptions lr_never_on_two_cells.
 Print Assumptions lr_exactly_requested_long_directions.
 Print Assumptions dirs_advance_cyclically.
+Print Assumptions directions_advance_across_preconditioner_calls.
+Print Assumptions stale_handover_at_call_end_refuted.
 Print Assumptions wf_example.
